@@ -1,6 +1,7 @@
 import SamplyModel.Lemmas.ProfileCanonical
 import SamplyModel.Lemmas.ProfileIdentSer
 import SamplyModel.Lemmas.ProfileDecode
+import SamplyModel.Lemmas.ProfileFrameDesc
 /-!
 # C03 — every serialized profile is internally consistent (no dangling index)
 
@@ -244,6 +245,50 @@ theorem C03_frame_rows (ops : List Op) (h : Accepted ops = true) (s : SerProfile
     rw [serThread_rowFrame _ th st hser i]
     obtain ⟨_, a2, _⟩ := hi.1.threads th (List.mem_of_getElem? ht)
     exact a2.2.2.2.2.2.2.2.2.2.2.2.2.2.2.row i k hk
+
+/-- **Canonical interning of frames, decoding half (2): what a row says.** `decodeFrame s st i` — the
+judge's decoding of frame row `i` of the serialized thread: name / file through `stringArray`, library
+identity through `resourceTable.lib → libs`, native symbol (library, address, size, name) through
+`nativeSymbols`, category / subcategory names through `meta.categories` — is the description `P.descOf` of
+the key interned at `i`, evaluated in the final model state. -/
+theorem C03_frame_decode (ops : List Op) (h : Accepted ops = true) (s : SerProfile)
+    (hs : serialize (run ops) = some s) (t : Nat) (th : Thread) (ht : (run ops).threads[t]? = some th) :
+    ∃ st ∈ s.threads, st.tid = idString th.tid ∧
+      ∀ (i : Nat) (k : Frame), th.frames.keys[i]? = some k → decodeFrame s st i = (run ops).descOf th k :=
+  decode_of_inv _ (Inv.run ops h).1 (Inv.run ops h).2 s hs t th ht
+
+/-- **Canonical interning of frames, decoding half (3): descriptions are stable.** Once the key at frame
+handle `(t, i)` has a description — its name / file strings, library identity, native symbol, category and
+subcategory names are defined — the same handle has the same key and the same description at the end of
+every accepted continuation: string arrays, native symbol tables, the used-library list and the library
+set are append-only, categories keep name and colour, subcategory lists are append-only
+(`step_ext`). -/
+theorem C03_frame_desc_stable (pre post : List Op) (h : Accepted (pre ++ post) = true) (t i : Nat) (th : Thread)
+    (k : Frame) (d : FrameDesc) (ht : (run pre).threads[t]? = some th) (hk : th.frames.keys[i]? = some k)
+    (hd : (run pre).descOf th k = some d) :
+    ∃ th', (run (pre ++ post)).threads[t]? = some th' ∧ th'.frames.keys[i]? = some k ∧
+      (run (pre ++ post)).descOf th' k = some d := by
+  have hsplit : ∀ (l : List Op) (p : P), AcceptedFrom p (l ++ post) = true →
+      AcceptedFrom p l = true ∧ AcceptedFrom (l.foldl (fun p o => (step p o).1) p) post = true := by
+    intro l
+    induction l with
+    | nil => intro p hp; exact ⟨rfl, hp⟩
+    | cons o os ih =>
+      intro p hp
+      simp only [List.cons_append, AcceptedFrom, Bool.and_eq_true] at hp ⊢
+      obtain ⟨h1, h2⟩ := ih _ hp.2
+      exact ⟨⟨hp.1, h1⟩, h2⟩
+  obtain ⟨hpre, hpost⟩ := hsplit pre P.init h
+  have hrun : run (pre ++ post) = post.foldl (fun p op => (step p op).1) (run pre) := by
+    simp [run, List.foldl_append]
+  rw [hrun]
+  have he := runFrom_ext post (run pre) (Inv.run pre hpre) hpost
+  obtain ⟨th', ht', hd'⟩ := P.descOf_stable he t th ht k d hd
+  refine ⟨th', ht', ?_, hd'⟩
+  obtain ⟨th'', ht'', hle⟩ := run_grow post (run pre) t th ht
+  rw [ht'] at ht''
+  cases ht''
+  exact prefix_getElem? hle.2.2 hk
 
 /-- **Frame handles are stable.** The frame key behind a valid frame handle is the same at the end of any
 continuation of the history. -/
